@@ -4,12 +4,12 @@ import pmhv
 import smt_taint as T
 
 FILE_KIND = {
-    "superminhasher.rs": ["smh_f64", "smh_f32"], "superminhasher2.rs": ["smh2"], "setsketcher.rs": ["setsketch"],
+    "superminhasher.rs": ["smh_f64", "smh_f32"], "superminhasher2.rs": ["smh2", "smh2_u32"], "setsketcher.rs": ["setsketch"],
     "densminhash.rs": ["optdens", "revdens"], "probminhash2.rs": ["pmh2"], "probminhash3.rs": ["pmh3", "pmh3a"],
     "probminhash3sha.rs": ["pmh3asha"], "probordminhash2.rs": ["probord"], "fyshuffle.rs": ["smh2", "setsketch", "pmh2", "probord"],
     "maxvaluetrack.rs": ["pmh2", "pmh3", "pmh3a", "probord"], "exp01.rs": ["pmh3", "pmh3a"],
 }
-ALL_KINDS = ["smh_f64", "smh_f32", "smh2", "setsketch", "optdens", "revdens", "pmh2", "pmh3", "pmh3a", "pmh3asha", "probord"]
+ALL_KINDS = ["smh_f64", "smh_f32", "smh2", "smh2_u32", "setsketch", "optdens", "revdens", "pmh2", "pmh3", "pmh3a", "pmh3asha", "probord"]
 
 
 def build_native(name, work):
@@ -37,17 +37,55 @@ def c12_native(kinds, work):
     diffs = []
     for k in kinds:
         outs = []
-        for _ in range(2):
-            p = subprocess.run([exe, k], stdout=subprocess.PIPE, stderr=subprocess.STDOUT, text=True, timeout=600)
+        for extra in ([], [], ["with-history"]):
+            p = subprocess.run([exe, k] + extra, stdout=subprocess.PIPE, stderr=subprocess.STDOUT, text=True, timeout=600)
             outs += p.stdout.strip().splitlines()
         if len(set(outs)) != 1:
-            diffs.append("%s: %d distinct outputs among %d runs (2 processes x (2 sequential + 2 concurrent instances))" % (k, len(set(outs)), len(outs)))
+            diffs.append("%s: %d distinct outputs among %d runs (3 processes, one of them after using other sketchers with other parameters, x (2 sequential + 2 concurrent instances))" % (k, len(set(outs)), len(outs)))
     return (True, "; ".join(diffs)) if diffs else (False, "all instances/threads/processes agree for " + ",".join(kinds))
 
 
+SKETCH_METHODS = {"sketch", "sketch_slice", "hash_item", "hash_set", "hash_wset", "hash_weigthed_idxmap", "hash_weigthed_hashmap", "densify",
+                  "end_sketch", "merge", "reinit", "reset", "update", "next", "update_with_maxtracker", "create_signature", "sample",
+                  "get_hsketch", "get_hsketch_u64", "get_hsketch_u32", "get_signature", "get_cardinal_stats", "get_jaccard_bounds",
+                  "get_jaccard_index_estimate", "compute_probminhash_jaccard", "compute_superminhash_jaccard", "get_sig"}
+# documented as intentionally drawing a new random seed
+EXEMPT = {"change_rng_seed", "change_wyhash_seed"}
+# process-wide mutable / lazily initialised state: its value depends on the history of the process, not on the
+# arguments (a second source class next to entropy)
+STATIC_PATTERNS = [r"OnceLock", r"LazyLock", r"OnceCell", r"as Deref>::deref\(const ", r"AtomicU\d+|AtomicUsize|AtomicBool", r"\bMutex\b|\bRwLock\b", r"thread_local|LocalKey"]
+
+
+# names of the crate's statics that are lazily initialised or interior-mutable (filled per run from the MIR dump)
+MUTABLE_STATICS = set()
+
+
+def find_mutable_statics(mir):
+    MUTABLE_STATICS.clear()
+    for m in re.finditer(r"^static (mut )?([\w:<> ]+?): ([^=]+) = \{", mir, re.M):
+        name = m.group(2).split("::")[-1].strip()
+        ty = m.group(3).strip()
+        if name in ("LOG", "LAZY") and "probminhash" not in ty:
+            pass
+        if m.group(1) or re.search(r"Lazy|OnceLock|OnceCell|Atomic|Mutex|RwLock|Cell<|RefCell", ty) or ty.split("::")[-1] == name:
+            if name != "LOG":
+                MUTABLE_STATICS.add(name)
+    return MUTABLE_STATICS
+
+
 def is_entropy_call(callee, args, f):
-    txt = callee
-    return any(re.search(p, txt) for p in T.ENTROPY_PATTERNS)
+    if f.file == "" or f.file.endswith("lib.rs"):
+        # the crate's own logger initialisation (lib.rs LOG) is not on any sketch path
+        if "init_log" in f.name or "LOG" in f.name:
+            return False
+    txt = callee.strip()
+    if any(re.search(p, txt) for p in T.ENTROPY_PATTERNS):
+        return True
+    if re.match(r"^(rand::)?(rngs::)?(rng|thread_rng|random)(::<.*>)?$", txt):
+        return True
+    if any(re.search(r"\b%s\b" % re.escape(n), txt) for n in MUTABLE_STATICS):
+        return True
+    return any(re.search(p, callee + "(" + args) for p in STATIC_PATTERNS)
 
 
 def check_c12_part2(work, fns, tier):
@@ -68,6 +106,12 @@ def check_c12_part2(work, fns, tier):
         for m in re.finditer(r"^\s*(_\d+) = (.*?(?:seed_from_u64|from_seed|with_seed)[^(]*)\((.*)\) -> \[return", f.body, re.M):
             for a in T.base_locals(m.group(3)):
                 sinks.append(("f%d%s" % (fi, a), "seed argument of %s in %s" % (m.group(2).split("::")[-1], f.name), f.file))
+        # (c) the state a sketching method leaves behind and the value it returns
+        if f.short in SKETCH_METHODS and f.short not in EXEMPT:
+            if f.params and f.params[0][1].startswith("&mut"):
+                sinks.append(("f%d%s" % (fi, f.params[0][0]), "the sketcher state written by %s" % f.name, f.file))
+            if f.types.get("_0", "()") not in ("()", "!"):
+                sinks.append(("f%d_0" % fi, "the value returned by %s" % f.name, f.file))
     results = []
     findings = []
     for i, (var, desc, file) in enumerate(sinks):
@@ -88,7 +132,9 @@ def run_c12(prop, spec, tier, seed, args):
     work = tempfile.mkdtemp(prefix="pmhv-c12-", dir=pmhv.SCRATCH_ROOT)
     vlines, known, undec = [], [], []
     try:
-        fns = T.parse_functions(T.dump_crate_mir(work))
+        mir_txt = T.dump_crate_mir(work)
+        find_mutable_statics(mir_txt)
+        fns = T.parse_functions(mir_txt)
         results, findings, ncl, nfacts = check_c12_part2(work, fns, tier)
         inconcl = [r for r in results if r["verdict"] == "inconclusive"]
         kf = pmhv.load_known().get("findings", [])
@@ -146,7 +192,7 @@ def run_c12(prop, spec, tier, seed, args):
 
 
 # ------------------------------------------------------------------------------------------ C20
-PARSE_SRC = re.compile(r"(^|[^A-Za-z0-9_])(from_reader|from_str|from_slice|from_value)(::<|$|\()")
+PARSE_SRC = re.compile(r"(^|[^A-Za-z0-9_])(from_reader|from_str|from_slice|from_value)::<[^()]*SetSketchParams")
 UNWRAPS = re.compile(r"Result::<[^(]*>::(unwrap|expect|unwrap_or|unwrap_or_default|unwrap_or_else|unwrap_unchecked|expect_err)\b|Option::<[^(]*>::(unwrap|expect)\b")
 
 
@@ -181,7 +227,8 @@ def run_c20(prop, spec, tier, seed, args):
             results.append({"obligation": "reload_json parses the file with serde_json (vacuity guard)", "verdict": "holds" if has_parse else "inconclusive", "solvers": []})
         vlines, undec = [], []
         native_note = ""
-        if findings or tier == "thorough":
+        guard_bad = any(r["verdict"] == "inconclusive" for r in results)
+        if findings or tier == "thorough" or guard_bad:
             exe, err = build_native("c20", work)
             if exe:
                 td = tempfile.mkdtemp(prefix="pmhv-c20d-", dir=pmhv.SCRATCH_ROOT)
@@ -202,8 +249,8 @@ def run_c20(prop, spec, tier, seed, args):
             else:
                 undec.append("native helper did not build: " + err)
         for r in results:
-            if r["verdict"] == "inconclusive":
-                undec.append("inconclusive: " + r["obligation"])
+            if r["verdict"] == "inconclusive" and not vlines:
+                undec.append("inconclusive: " + r["obligation"] + " (the native reload of every prefix found nothing)")
         ev = {
             "property_id": prop, "tier": tier, "seed": seed, "level": "other",
             "coverage": {
@@ -231,5 +278,26 @@ def run_c20(prop, spec, tier, seed, args):
         if undec:
             return 2
         return 0
+    finally:
+        shutil.rmtree(work, ignore_errors=True)
+
+
+
+def c04_native_confirm(test_src, rdir):
+    """confirmation for C04 harnesses whose counterexamples cannot be replayed by Kani playback (libm stubs):
+    randomized differential search on the real SetSketcher (orders, duplicates) with the real libm"""
+    work = tempfile.mkdtemp(prefix="pmhv-c04n-", dir=pmhv.SCRATCH_ROOT)
+    try:
+        exe, err = build_native("c04", work)
+        if not exe:
+            return None, "native helper did not build: " + err
+        seed = int(os.environ.get("VERIF_SEED", "0") or 0)
+        for sd in (seed, seed + 1, seed + 2):
+            p = subprocess.run([exe, str(sd + 1)], stdout=subprocess.PIPE, stderr=subprocess.STDOUT, text=True, timeout=120)
+            if "MISMATCH" in p.stdout:
+                with open(os.path.join(rdir, "native_witness.txt"), "w") as fh:
+                    fh.write(p.stdout)
+                return True, "native/c04: " + p.stdout.strip().splitlines()[0][:300]
+        return False, "native/c04: no set-semantics mismatch found on the real SetSketcher (%s)" % p.stdout.strip()[-80:]
     finally:
         shutil.rmtree(work, ignore_errors=True)
